@@ -403,6 +403,25 @@ def structural_designs() -> Iterator[Tuple[str, dict]]:
                 yield (f"bundle-{bname}-{'flip' if flipped else 'noflip'}-{form}",
                        {"bundles": B(), "modules": [ch, top], "top": "T"})
 
+    # one bundle (or reference) feeding SEVERAL ports of one instance
+    obs = []
+    for k, bpn in enumerate(("bp1", "bp2", "bp3")):
+        obs.append(_inst(f"e{k}", L("E2"), {"x": ["bref", bpn, ["y"]], "y": ["bref", bpn, ["x"]]}, tag=40 + k))
+    cm = _mod("Cm", bports=[["bp1", "B1", False, None], ["bp2", "B1", False, None], ["bp3", "B1", True, None]], insts=obs)
+    for variant in range(3):
+        c0 = {"bp1": ["bun", "bb"], "bp2": ["bun", "bb"], "bp3": ["bun", "bb"]}
+        c1 = {"bp1": ["bun", "bb"], "bp2": ["bun", "b2"], "bp3": ["bun", "bb"]}
+        if variant == 1:
+            c1 = {"bp1": ["bref", "b3", ["lo"]], "bp2": ["bref", "b3", ["lo"]], "bp3": ["bref", "b3", ["hi"]]}
+        if variant == 2:
+            c1 = {"bp1": ["pref", "c0", "bp1"], "bp2": ["pref", "c0", "bp1"], "bp3": ["anon", {"x": ["bref", "bb", ["x"]], "y": ["bref", "b2", ["y"]]}]}
+        top = _mod("T", buns=[["bb", "B1"], ["b2", "B1"], ["b3", "B3"]],
+                   insts=[_inst("c0", ["mod", "Cm"], c0), _inst("c1", ["mod", "Cm"], c1),
+                          _inst("zo", L("E2"), {"x": ["bref", "b3", ["hi", "y"]], "y": ["bref", "b3", ["hi", "x"]]}, tag=60),
+                          _inst("zp", L("E2"), {"x": ["bref", "b3", ["lo", "y"]], "y": ["bref", "b3", ["z"]]}, tag=61),
+                          _inst("zq", L("E2"), {"x": ["bref", "b2", ["y"]], "y": ["bref", "b2", ["x"]]}, tag=62)])
+        yield (f"bundle-multi-port-{variant}", {"bundles": B(), "modules": [copy.deepcopy(cm), top], "top": "T"})
+
     # --- arrays -------------------------------------------------------------------------------------
     ch = _mod("Ca", ports=[["a", 2, "in"], ["b", 1, "out"]], bports=[["bp", "B1", False, None]],
               insts=[_inst("e", L("E2"), {"x": S("a"), "y": S("b")}, tag=1),
